@@ -1047,6 +1047,8 @@ fn server_props(r: &mut Rd, allowed: &[u8], server_publish: bool) -> Result<Vec<
             // ... likewise a property identifier written as a non-canonical or oversized
             // variable-length integer
             Err(e) if (e.contains("non-canonical varint") || e.contains("varint longer than 4 bytes")) && allowed == P_CONNACK => return Err(Class::MustReject("non-canonical or oversized variable-length integer in a CONNACK property")),
+            // ... and an identifier beyond the one-byte range, which MQTT 5 assigns to no property
+            Err(e) if e.contains("unknown property id") && allowed == P_CONNACK && e.split("id ").nth(1).and_then(|x| x.split(' ').next()).and_then(|x| u32::from_str_radix(x.trim_start_matches("0x"), 16).ok()).is_some_and(|id| id > 0xFF) => return Err(Class::MustReject("property identifier above 255 in a CONNACK")),
             Err(_) => return Err(Class::DontCare("malformed content inside property block")),
         }
     }
@@ -1101,7 +1103,7 @@ pub fn classify_server(frame: &[u8], rx_cap: usize) -> Class {
             let props = match server_props(&mut r, P_CONNACK, false) {
                 Ok(p) => p,
                 // a refusing CONNACK may be reported by its reason code before its properties are read
-                Err(Class::MustReject("property value runs past the property block" | "non-canonical or oversized variable-length integer in a CONNACK property")) if reason >= 0x80 => return Class::DontCare("malformed properties in a refusing CONNACK"),
+                Err(Class::MustReject("property value runs past the property block" | "non-canonical or oversized variable-length integer in a CONNACK property" | "property identifier above 255 in a CONNACK")) if reason >= 0x80 => return Class::DontCare("malformed properties in a refusing CONNACK"),
                 Err(c) => return c,
             };
             if r.left() != 0 {
